@@ -203,6 +203,10 @@ def run(ctx: Ctx) -> None:
     fc = [c for c in own_nodes(fin.node) if isinstance(c, ast.Call) and dfc in res.callees(fin, c).funcs]
     fp = [p for p in fin.param_names() if p != "self"][0]
     ctx.ob("C06.R1", fin, "finish_connection hands its login flag through", len(fc) == 1 and [norm(a) for a in fc[0].args] == [fp], f"{[norm(a) for c in fc for a in c.args]}")
+    for f_ in (hl, dfc, fin):
+        lp_ = [p for p in f_.param_names() if p != "self"][:1]
+        rb = [n.lineno for n in own_nodes(f_.node) if isinstance(n, ast.Name) and lp_ and n.id == lp_[0] and isinstance(n.ctx, ast.Store)]
+        ctx.ob("C06.R1", f_, f"{f_.name}: the login flag is never rebound", not rb, f"`{lp_[0] if lp_ else '?'}` reassigned at line(s) {rb}: whether the password verdict is awaited no longer follows the caller's request alone")
     # ... and so does the client on top of it: "when login is requested" is the caller's decision alone
     cli = ctx.repo.cls("APIClient")
     cfin = cli.methods["finish_connection"]
